@@ -20,7 +20,7 @@ from .values import (
 )
 
 REPO_PREFIX = "aiohomekit"
-MAX_UNROLL = 300
+MAX_UNROLL = 48
 MAX_DEPTH = 40
 
 
@@ -276,8 +276,9 @@ class Interp:
             if d.closed:
                 d.entries[k] = (False, None)
             else:
-                has = self.ctx.fresh(f"{d.name}_has_{k}", z3.BoolSort())
-                val = self.fresh(d.valsort, f"{d.name}_val_{k}")
+                # deterministic names: two records with the same name denote the same map
+                has = z3.Const(f"{d.name}_has_{k}", z3.BoolSort())
+                val = ops.normalize(self, d.valsort.unbox(z3.Const(f"{d.name}_val_{k}", d.valsort.z3sort())))
                 d.entries[k] = (has, val)
         return d.entries[k]
 
